@@ -1119,6 +1119,17 @@ func (p *parser) parseClauses(fc *FuncContract) error {
 					return err
 				}
 			}
+			if p.isID("setflag") { // at call <label> setflag <pathflag> <expr>: after the call, flag := expr (may use result/resultN/argN)
+				p.next()
+				fl := p.next().s
+				start := p.peek().pos
+				e, err := p.parseExpr(0)
+				if err != nil {
+					return err
+				}
+				fc.Clauses = append(fc.Clauses, &Clause{Kind: "setflag", Call: label, Except: except, After: after, Label: fl, E: e, Text: p.textSince(start)})
+				continue
+			}
 			if p.isID("mark") { // at call <label> mark <pathflag>: the flag becomes true when this call is reached
 				p.next()
 				fc.Clauses = append(fc.Clauses, &Clause{Kind: "mark", Call: label, Except: except, After: after, Label: p.next().s})
